@@ -33,7 +33,10 @@ def correspond(ctx):
                          "1..12 ops over {write_points(chunk of 0/1/2/5/17/40 records, random/extreme bytes), write_points(foreign format: "
                          "other id or same id with other extra dims), write_evlrs(0..2 records), close}, always closed at the end, "
                          "closefd=False. non-trivial = at least two non-empty chunks or a refused op; distinct by the op shape and header")
-    ss = sessions_for(ctx)
+    ss_all = sessions_for(ctx)
+    # sessions with a differently scaled scale-aware chunk: the rescaling rule is C11's; they are checked by the oracle only
+    ss = [s for s in ss_all if not sessions.has_rescaled_chunk(s)]
+    ctx.count("sessions:with-rescaled-chunk(oracle only)", len(ss_all) - len(ss))
     outs = common.run_model([sessions.writer_cmd(s) for s in ss])
     dis = []
     for s, mo in zip(ss, outs):
@@ -78,12 +81,24 @@ def search(ctx, seeds):
                         add("write after finish not refused", d, f"write_points after the writer was finished: outcome {o}, file unchanged={same_bytes}")
             if op[0] == "P" and len(op[1]) == 0 and (o != "ok" or not same_bytes):
                 add("empty chunk not ignored", d, f"empty chunk: outcome {o}, unchanged={same_bytes}")
+            if op[0] == "P" and len(op[1]) and op[2] and not finished and o not in ("ok", "err:EOverflow"):
+                add("chunk refused although the writer is not finished", d, f"write_points of {len(op[1])} points of the writer's format before any EVLR/close: {o}")
             if (op[0] == "E" and o == "ok" and len(op[1])) or (op[0] == "C" and o == "ok"):
                 finished = True
         # (b) chunked == one-shot, byte for byte
         pts, evl = sessions.accepted_points(s, iouts)
         if s["header"].version.minor < 4:
             evl = None
+        if sessions.has_rescaled_chunk(s):
+            # the stored integers of a rescaled chunk are C11's business: take the points as stored, and require the rest of
+            # the file (header statistics, offsets, EVLRs) to be that of writing these points at once
+            try:
+                import io as _io
+                import laspy as _laspy
+                pts = lasio.rec_bytes(_laspy.read(_io.BytesIO(raw)).points)
+            except Exception as ex:
+                add("file of a session with a rescaled chunk cannot be read", d, repr(ex))
+                continue
         try:
             ref = sessions.one_shot(s["header"], pts, evl)
         except Exception as ex:
